@@ -19,7 +19,7 @@ def run(rep):
     rep.assumptions = ['integer energies (exact sums); blocked = 3e7 > the 1e7 threshold; NetworkXNoPath / NodeNotFound are the API contract for unreachable requests',
                        'only costs are compared, never node sequences (ties are broken arbitrarily)',
                        'method minmax-energy returning the dijkstra path where the bottleneck could be lower is known finding D7']
-    inst = [(1, 2, 3, False, 'sum'), (1, 2, 3, True, 'sum')] if quick else [(2, 2, 2, False, 'sum'), (1, 2, 3, True, 'sum'), (1, 2, 3, True, 'simple'), (2, 2, 2, True, 'sum')]
+    inst = [(1, 2, 3, False, 'sum'), (1, 2, 3, True, 'sum')] if quick else [(2, 2, 2, False, 'sum'), (1, 2, 3, True, 'sum'), (1, 2, 3, True, 'simple'), (1, 2, 4, False, 'sum')]
     for (dx, dy, dz, diag, kind) in inst:
         r = core.model_check('MC_Walker', walker_cfg(dx, dy, dz, diag, kind, ['NeverCheaper', 'Attained', 'PeakAttained']), workers=16, timeout=3000)
         rep.add_model(f'MC_Walker {dx}x{dy}x{dz} diagonal={diag} kind={kind}', r)
